@@ -44,11 +44,13 @@ impl Compiler {
 //@GHOST before="self.compile_expression(a)?;" let ghost s_it = *self;
 //@GHOST after="self.compile_expression(a)?;" proof { lemma_gen_post_trans(*old(self), s_it, *self, false, true); }
 //@GHOST before="if let Expr::Identifier(name) = &**left {" let ghost s_loop = *self;
-//@GHOST after="self.emit_u8(to_u8(arguments.len())?);" proof { /* operand effect of CallBuiltin <argc>: the arguments are consumed */ self.height = Ghost(hplus(self.height@, -(arguments@.len() as int))); let n0 = s_loop.instructions@.len() as int; assert(self.instructions@ =~= s_loop.instructions@ + self.instructions@.subrange(n0, n0 + 3)); lemma_gen_post_append(s_loop, *self, self.instructions@.subrange(n0, n0 + 3)); lemma_gen_post_trans(*old(self), s_loop, *self, false, true); lemma_gen_post_upgrade(*old(self), *self); }
+//@GHOST after="self.emit_u8(to_u8(arguments.len())?);" proof { /* operand effect of CallBuiltin <argc>: the arguments are THERE (O02.pop) and are consumed */ assert(hcovers(self.height@, arguments@.len() as int + 1)); self.height = Ghost(hplus(self.height@, -(arguments@.len() as int))); let n0 = s_loop.instructions@.len() as int; assert(self.instructions@ =~= s_loop.instructions@ + self.instructions@.subrange(n0, n0 + 3)); lemma_gen_post_append(s_loop, *self, self.instructions@.subrange(n0, n0 + 3)); lemma_gen_post_trans(*old(self), s_loop, *self, false, true); lemma_gen_post_upgrade(*old(self), *self); }
 //@GHOST after="self.compile_expression(left)?;" let ghost s_left = *self;
 //@ARM file=compiler.rs fn=compile_expression impl=Compiler arm="Expr::Call" rules="R1;R4;R14[compile_call];R8[for a in arguments {=>for a in __it: arguments {];R3[builtin as u8=>builtin.byte]"
         proof {
-            // operand effect of Call <argc>: the arguments are consumed (the callee word is replaced by the result)
+            // operand effect of Call <argc>: callee word and arguments are THERE (O02.pop); the arguments are consumed
+            // (the callee word is replaced by the result)
+            assert(hcovers(self.height@, arguments@.len() as int + 1));
             self.height = Ghost(hplus(self.height@, -(arguments@.len() as int)));
             let n1 = s_left.instructions@.len() as int;
             assert(self.instructions@ =~= s_left.instructions@ + self.instructions@.subrange(n1, n1 + 2));
@@ -84,7 +86,8 @@ impl Compiler {
 //@GHOST before="self.emit_opcode(OpCode::Array);" let ghost s_loop = *self;
 //@ARM file=compiler.rs fn=compile_expression impl=Compiler arm="Expr::Array" rules="R1;R4;R8[for v in values {=>for v in __it: values {]"
         proof {
-            // operand effect of Array <count>: the elements are consumed
+            // operand effect of Array <count>: the elements are THERE (O02.pop) and are consumed
+            assert(hcovers(self.height@, values@.len() as int + 1));
             self.height = Ghost(hplus(self.height@, -(values@.len() as int)));
             let n1 = s_loop.instructions@.len() as int;
             assert(self.instructions@ =~= s_loop.instructions@ + self.instructions@.subrange(n1, n1 + 3));
